@@ -27,7 +27,12 @@ pub fn run(ctx: &Ctx, out: &mut CaseOut) {
     // non-increasing programs only: every derivation stays inside the goal's sub-terms, so the model is exact and the
     // solvers' limits are never reached.
     let cfg = GenCfg { coinductive_pct: if ctx.k % 3 == 0 { 40 } else { 0 }, ..Default::default() };
-    let prog = gen_program(&mut r, &cfg);
+    // every 8th case: the propositional fragment (one struct, dense cycles with base cases, several clauses per atom;
+    // all of its goals are closed)
+    let propositional = ctx.k % 8 == 6;
+    let prop_coinductive = (ctx.k / 8) % 3 == 2;
+    let prog = if propositional { gen_propositional(&mut r, prop_coinductive) } else { gen_program(&mut r, &cfg) };
+    let prop_goals = if propositional { gen_propositional_goals(&mut r, &prog, 8, !prop_coinductive) } else { vec![] };
     assert!(prog.non_increasing());
     let text = program_text(&prog);
     let configs: Vec<SolverChoice> = vec![
@@ -43,7 +48,7 @@ pub fn run(ctx: &Ctx, out: &mut CaseOut) {
     }
     for gi in 0..8 {
         let gcfg = GoalCfg { closed_only: true, allow_not: true, allow_eq: false, need_exists: false };
-        let (goal, exs) = gen_goal(&mut r, &prog, &gcfg);
+        let (goal, exs) = if propositional { (prop_goals[gi].clone(), vec![]) } else { gen_goal(&mut r, &prog, &gcfg) };
         assert!(exs.is_empty());
         let gtext = goal_text(&goal);
         let mut phs = vec![];
@@ -86,7 +91,9 @@ pub fn run(ctx: &Ctx, out: &mut CaseOut) {
             match ans {
                 MAnswer::Unique(..) | MAnswer::None => {
                     if let Err(e) = judge::check(&mut sem, &uni, &goal, &[], ans) {
-                        out.violation(None, format!("{} answered `{}` on a closed goal: {}", solver_desc(choice), rec.shown, e), d());
+                        // F11 (hook H4 evidence) only ever loses answers
+                        let sig = if rec.stale_delayed_table && matches!(ans, MAnswer::None) { Some("slg:stale-delayed-answer-table") } else { None };
+                        out.violation(sig, format!("{} answered `{}` on a closed goal: {}", solver_desc(choice), rec.shown, e), d());
                     } else if verdict != Tri::Unknown {
                         out.count(&format!("nontrivial:definite-and-correct:{}", if matches!(ans, MAnswer::None) { "none" } else { "unique" }));
                         out.nt(&format!("{}|{}|{}|{}", text, gtext, solver_desc(choice), rec.shown));
